@@ -193,6 +193,30 @@ def enumerate_terminal_forks() -> Iterator[Any]:
         yield ["seq", [a, ["fork", op1, brs]]]
 
 
+def enumerate_staged_rejoins() -> Iterator[Any]:
+    """F-adjacent definitions (outside F's grammar: a branch that begins with a fork): nested forks of one operator
+    whose branches re-join in 2-3 successive stages at different events, with or without a branch that ends the job
+    — A; op{ op{ op{B|C}; X | D }; W | E [| F; detach] [| F] }; Y.  The learner flattens them into one fork with
+    partial merges (`create_logic_merge`); the unchanged tree emits a well-formed text with exactly the input's
+    names for all 18 (hash seeds 0-2)"""
+    import itertools
+    for op, early, stages in itertools.product(("XOR", "AND", "OR"), ("none", "detach", "plain"), (2, 3)):
+        ng = NameGen()
+
+        def E() -> Any:
+            return ["ev", ng.fresh()]
+        a = E()
+        cur = ["seq", [["fork", op, [["seq", [E()]], ["seq", [E()]]]], E()]]
+        for _ in range(stages - 1):
+            cur = ["seq", [["fork", op, [cur, ["seq", [E()]]]], E()]]
+        brs = [cur, ["seq", [E()]]]
+        if early == "detach":
+            brs.append(["seq", [E(), ["detach"]]])
+        elif early == "plain":
+            brs.append(["seq", [E()]])
+        yield ["seq", [a, ["fork", op, brs], E()]]
+
+
 def enumerate_bare_breaks() -> Iterator[Any]:
     """F-adjacent definitions (outside F's grammar: a loop directly followed by a fork, a break branch without an
     event of its own): an outer loop whose body holds a nested loop and then a choice between leaving the outer loop
